@@ -60,8 +60,9 @@ type syncer struct {
 	chunkFetchers int32
 	retryTimeout  time.Duration
 
-	mtx    tmsync.RWMutex
-	chunks *chunkQueue
+	mtx      tmsync.RWMutex
+	chunks   *chunkQueue
+	snapshot *snapshot // the snapshot being restored, set together with chunks
 }
 
 // newSyncer creates a new syncer.
@@ -99,6 +100,15 @@ func (s *syncer) AddChunk(chunk *chunk) (bool, error) {
 	if s.snapshots.IsPeerRejected(chunk.Sender) {
 		s.logger.Debug("Ignoring chunk from rejected sender", "height", chunk.Height, "format", chunk.Format,
 			"chunk", chunk.Index, "peer", chunk.Sender)
+		return false, nil
+	}
+	// Chunk responses only name height, format and index, and chunks are only requested from peers
+	// that advertised the snapshot being restored. A chunk from any other peer is either unsolicited
+	// or the late answer to a request for an earlier snapshot with the same height and format that
+	// has been given up since, so it must not end up in this snapshot's queue.
+	if chunk.Sender != "" && !s.snapshots.HasPeer(s.snapshot, chunk.Sender) {
+		s.logger.Debug("Ignoring chunk from peer that does not have the snapshot", "height", chunk.Height,
+			"format", chunk.Format, "chunk", chunk.Index, "peer", chunk.Sender)
 		return false, nil
 	}
 	added, err := s.chunks.Add(chunk)
@@ -252,10 +262,12 @@ func (s *syncer) Sync(snapshot *snapshot, chunks *chunkQueue) (sm.State, *types.
 		return sm.State{}, nil, errors.New("a state sync is already in progress")
 	}
 	s.chunks = chunks
+	s.snapshot = snapshot
 	s.mtx.Unlock()
 	defer func() {
 		s.mtx.Lock()
 		s.chunks = nil
+		s.snapshot = nil
 		s.mtx.Unlock()
 	}()
 
